@@ -441,7 +441,14 @@ pub fn run_clip1(out: &mut Out, rng: &mut Rng, thorough: bool) {
                         continue;
                     }
                     let removed = !kept.contains(&canon(v.dual));
-                    out.rec("clip1", &inp.family, s.trim_end(), &format!("{} {} {} {}", if removed { "removed" } else { "kept" }, ties.len(), calls, if is_tie { "tie" } else { "clear" }));
+                    // conditioning of the vertex position: determinant of its three unit plane normals
+                    let nd = glam::DMat3::from_cols(
+                        sc.cell.clipping_planes[v.dual[0]].normal(),
+                        sc.cell.clipping_planes[v.dual[1]].normal(),
+                        sc.cell.clipping_planes[v.dual[2]].normal(),
+                    )
+                    .determinant();
+                    out.rec("clip1", &inp.family, s.trim_end(), &format!("{} {} {} {} {}", if removed { "removed" } else { "kept" }, ties.len(), calls, if is_tie { "tie" } else { "clear" }, fx(nd)));
                 }
             }
         }
